@@ -169,19 +169,20 @@ theorem instances_see_values (fl : Flags) (lib : List Cls) (sg : SGraph) (root :
     `datapath_prefix_witness` for the behaviour before the fixes).  `serialization.save(v, dir)` into a directory `base`
     followed by `serialization.load(dir)` — for every well-formed graph, every value `v` (a configuration, or a
     list / dictionary structure of configurations) and every file system `fs`, when the source numbers the saved
-    files by definition (`perObject`) and `load` forwards its data loader (`loadForwards`; both are source
-    obligations below) — returns `v` itself and, at every needed configuration `n`, the original object (class, type,
+    files by definition (`perObject`) and by parameter (`nameByParam`) and `load` forwards its data loader
+    (`loadForwards`; all three are source obligations below: the name of a copy is then `paramName`, a function that
+    is injective on (configuration, parameter) — `Proofs/SerialData.lean` `paramName_inj`, `saved_distinct`) — returns `v` itself and, at every needed configuration `n`, the original object (class, type,
     every argument, task link, pre-tasks; meta flag and init tasks as `load_serialize_iso`) in which every data
     argument `a` that held a path now holds `base/<position of n>/<a>` (`placedArg`); that path names a file of the
     save directory whose content is the content of the original file (both in the directory seen as a map of relative
     names and in the file system after the save); and two data values are stored in the same file only if they are
     the same argument of the same configuration (distinct originals ↦ distinct files). -/
 theorem datapath_round_trip (fl : Flags) (dfl : DFlags) (lib : List Cls) (sg : SGraph) (fs : FS) (v : Val) (base : List Nat)
-    (hN1 : dfl.perObject = true) (hN2 : dfl.loadForwards = true)
+    (hN1 : dfl.perObject = true) (hN2 : dfl.loadForwards = true) (hN5 : dfl.nameByParam = true)
     (hwf : WF sg.g) (hr : ∀ r ∈ cfgRefs v, r < sg.g.size)
     (hok : ∀ n, Needed sg.g (cfgRefs v) n → NodeOk lib sg n) :
     let order := serialOrder sg.g (cfgRefs v)
-    let place := fun (n : Nat) (a : List Nat) => inDir base (relName dfl (posOf order n) a)
+    let place := fun (n : Nat) (a : List Nat) => inDir base (paramName dfl (posOf order n) a)
     ∃ L, loadSaved fl dfl lib base (save fl dfl lib sg fs v) = .ok (L, v) ∧
       (∀ n, Needed sg.g (cfgRefs v) n →
         lookupObj n L = some
@@ -191,16 +192,16 @@ theorem datapath_round_trip (fl : Flags) (dfl : DFlags) (lib : List Cls) (sg : S
       (∀ n, Needed sg.g (cfgRefs v) n → ∀ a ∈ (sg.g.node n).args, (dataNames lib sg n).contains a.name = true →
         ∀ s c, a.value = .path s → fsGet fs s = some c →
           (placedArg dfl base (dataNames lib sg n) (posOf order n) a).value = .path (place n a.name) ∧
-          fsGet (save fl dfl lib sg fs v).dir (relName dfl (posOf order n) a.name) = some c ∧
+          fsGet (save fl dfl lib sg fs v).dir (paramName dfl (posOf order n) a.name) = some c ∧
           fsGet (fsAfter base fs (copies dfl lib sg fs order)) (place n a.name) = some c) ∧
       (∀ n n', Needed sg.g (cfgRefs v) n → Needed sg.g (cfgRefs v) n' → ∀ a a' : List Nat,
         place n a = place n' a' → n = n' ∧ a = a') := by
   intro order place
-  obtain ⟨L, hl, hobj⟩ := loadSaved_save fl dfl lib sg fs v base hN2 hwf hr hok
+  obtain ⟨L, hl, hobj⟩ := loadSaved_save fl dfl lib sg fs v base hN2 hN5 hwf hr hok
   obtain ⟨_, hiff, _, _⟩ := serialOrder_spec sg.g (cfgRefs v) hwf hr
   refine ⟨L, hl, hobj, ?_, ?_⟩
   · intro n hn a ha hd s c hs hc
-    have hcont := saved_content dfl lib sg fs order base hN1
+    have hcont := saved_content dfl lib sg fs order base hN1 hN5
       (fun m hm => (hok m ((hiff m).1 hm)).names) ((hiff n).2 hn) ha hd hs hc
     refine ⟨?_, hcont.1, hcont.2⟩
     simp only [placedArg, hd, hs]
@@ -209,11 +210,12 @@ theorem datapath_round_trip (fl : Flags) (dfl : DFlags) (lib : List Cls) (sg : S
     exact saved_distinct dfl hN1 order base ((hiff n).2 hn) ((hiff n').2 hn') h
 
 /-- **The source is in the case of `datapath_round_trip`**, and wraps the recorded name of a data path in `Path(…)`
-    (C12-N3) — source obligations on `Gen.dataFlags`, which is regenerated from `core/objects.py` and
+    (C12-N3), and names a copy after the parameter (seeded change C12g names it after the data file) — source
+    obligations on `Gen.dataFlags`, which is regenerated from `core/objects.py`, `core/context.py` and
     `core/serialization.py` on every run. -/
 theorem source_data_flags :
     Gen.dataFlags.perObject = true ∧ Gen.dataFlags.loadForwards = true ∧ Gen.dataFlags.pathWrapped = true ∧
-    Gen.dataFlags.taskDirForwards = true := by
+    Gen.dataFlags.taskDirForwards = true ∧ Gen.dataFlags.nameByParam = true := by
   decide
 
 /-- **… in the job process** (no data loader, absolute names): a data argument is given a `Path` holding the recorded
@@ -406,6 +408,40 @@ theorem datapath_prefix_witness :
     (match jobDataValue { fixedD with pathWrapped := false } f1 with | .str s => s == f1 | _ => false) = true ∧
     loadedContent fixedD 1 = some 11 ∧ loadedContent fixedD 2 = some 22 ∧
     (save newFlags fixedD plib pg pfs (.ref 0)).dir = [([49, 47, 100, 112], 22), ([48, 47, 100, 112], 11)] := by
+  decide
+
+/-! one configuration with two data files of the same base name: `class E(Config): q: DataPath; d: DataPath`,
+    `E(q=/c/q/m, d=/c/d/m)`, contents 11 and 22. -/
+def clsE : Cls := { name := [69], typeId := [101], data := [[113], [100]],
+                    args := [{ name := [113], ignored := true, value := .none }, { name := [100], ignored := true, value := .none }] }
+def qm : List Nat := [47, 99, 47, 113, 47, 109]
+def dm : List Nat := [47, 99, 47, 100, 47, 109]
+def eg : SGraph :=
+  { g := { nodes := [ { typeId := [101], args := [{ name := [113], ignored := true, value := .path qm },
+                                                 { name := [100], ignored := true, value := .path dm }] } ] },
+    cname := [[69]] }
+def efs : FS := [(qm, 11), (dm, 22)]
+/-- the paths the loaded object holds in `q` and `d`, and the contents of the files they name -/
+def loadedE (dfl : DFlags) : List (List Nat × Option Nat) :=
+  match loadSaved newFlags dfl [clsE] sdir (save newFlags dfl [clsE] eg efs (.ref 0)) with
+  | .ok (l, _) =>
+    (match lookupObj 0 l with
+     | some o => o.node.args.map (fun a => match a.value with
+        | .path s => (s, fsGet (fsAfter sdir efs (copies dfl [clsE] eg efs (serialOrder eg.g [0]))) s)
+        | _ => ([], none))
+     | none => [])
+  | .error _ => []
+
+/-- seeded change C12g (`SerializationContext.serialize` names a copy after the *data file*: `<index>/<file name>`) as a
+    counter-example of `datapath_round_trip` without `nameByParam` — the index still separates the objects, the file
+    name does not separate the parameters of one object: both parameters of `E(q=/c/q/m, d=/c/d/m)` come back as
+    `/s/0/m`, which holds the content of the second file (22), the content 11 is in no file of the directory; named after
+    the parameter (`paramName`, injective on (object, parameter)) they come back as `/s/0/q` ↦ 11 and `/s/0/d` ↦ 22. -/
+theorem datapath_name_witness :
+    baseName qm = [109] ∧ baseName dm = [109] ∧
+    loadedE { fixedD with nameByParam := false } = [([47, 115, 47, 48, 47, 109], some 22), ([47, 115, 47, 48, 47, 109], some 22)] ∧
+    (save newFlags { fixedD with nameByParam := false } [clsE] eg efs (.ref 0)).dir = [([48, 47, 109], 22), ([48, 47, 109], 11)] ∧
+    loadedE fixedD = [([47, 115, 47, 48, 47, 113], some 11), ([47, 115, 47, 48, 47, 100], some 22)] := by
   decide
 
 /-- non-vacuity of the second save: the loaded value written into a second directory and loaded again names files of
